@@ -3,6 +3,8 @@
   the equation model = translated source proved in `Props/C10_tr.lean` is an obligation of C01 as well.
 -/
 import PyGqlModel.StringUtils
+import PyGqlModel.Lex
+import PyGqlModel.Generated.TrLexer
 import PyGqlModel.Props.C10_tr
 
 namespace PyGql.Props.C01
@@ -11,5 +13,133 @@ open PyGql PyGql.Generated
 theorem index_to_loc_model_eq_source (body : Text) (position : Nat) :
     Tr.index_to_loc body (position : Int) = C10.locOfModel (StringUtils.indexToLoc body position) :=
   C10.index_to_loc_model_eq_source body position
+
+/-! ### `Lexer._read_name`: the index-based `while True / try / except IndexError / break` loop of the source against the
+    suffix-based `takeWhile` / `dropWhile` of the model -/
+
+private theorem getItem_at {α} (pre : List α) (c : α) (t : List α) : Py.getItem (pre ++ c :: t) (pre.length : Int) = .ok c := by
+  have h1 : ¬ ((pre.length : Int) < 0) := by omega
+  have h2 : 0 ≤ (pre.length : Int) ∧ (pre.length : Int) < (((pre ++ c :: t).length : Nat) : Int) := by
+    simp only [List.length_append, List.length_cons]; omega
+  simp only [Py.getItem, Py.itemIdx, h1, if_false, Int.ofNat_eq_natCast, h2, and_self, if_true, Int.toNat_natCast]
+  simp
+
+private theorem getItem_end {α} (pre : List α) : Py.getItem pre (pre.length : Int) = .error "IndexError" := by
+  have h1 : ¬ ((pre.length : Int) < 0) := by omega
+  have h2 : ¬ (0 ≤ (pre.length : Int) ∧ (pre.length : Int) < ((pre.length : Nat) : Int)) := by omega
+  simp only [Py.getItem, Py.itemIdx, h1, if_false, Int.ofNat_eq_natCast, h2]
+
+private theorem nameChar_eq (c : Nat) :
+    ((c == 95) || ((([97, 98, 99, 100, 101, 102, 103, 104, 105, 106, 107, 108, 109, 110, 111, 112, 113, 114, 115, 116, 117, 118, 119, 120, 121, 122, 65, 66, 67, 68, 69, 70, 71, 72, 73, 74, 75, 76, 77, 78, 79, 80, 81, 82, 83, 84, 85, 86, 87, 88, 89, 90] : List Nat).contains c) || (([48, 49, 50, 51, 52, 53, 54, 55, 56, 57] : List Nat).contains c)))
+      = Lex.isNameChar c := by
+  unfold Lex.isNameChar Lex.isLetter Lex.isDigit Generated.LexTables.asciiLetters Generated.LexTables.digits
+  rw [Bool.or_assoc]
+
+private theorem read_name_while : ∀ (fuel : Nat) (pre s : List Nat), s.length < fuel →
+    Tr.Lexer._read_name.while1 (pre ++ s) fuel (pre.length : Int)
+      = .fall (((pre.length + (s.takeWhile Lex.isNameChar).length : Nat)) : Int)
+  | 0, _, _, h => by omega
+  | fuel + 1, pre, [], _ => by
+    rw [Tr.Lexer._read_name.while1]
+    simp [getItem_end]
+  | fuel + 1, pre, c :: t, h => by
+    rw [Tr.Lexer._read_name.while1]
+    simp only [getItem_at, nameChar_eq, if_true]
+    by_cases hc : Lex.isNameChar c = true
+    · have ih := read_name_while fuel (pre ++ [c]) t (by simp at h; omega)
+      have e1 : pre ++ [c] ++ t = pre ++ c :: t := by simp
+      have e2 : (((pre ++ [c]).length : Nat) : Int) = (pre.length : Int) + 1 := by simp
+      rw [e1, e2] at ih
+      simp only [hc, if_true, ih, List.takeWhile_cons]
+      congr 1; simp; omega
+    · simp [hc]
+
+private theorem slice_mid {α} (pre s : List α) (k : Nat) (hk : k ≤ s.length) :
+    Py.slice (pre ++ s) (pre.length : Int) ((pre.length + k : Nat) : Int) = s.take k := by
+  have h1 : ¬ ((pre.length : Int) < 0) := by omega
+  have h2 : ¬ (((pre.length + k : Nat) : Int) < 0) := by omega
+  simp only [Py.slice, Py.normIdx, h1, h2, if_false, Int.toNat_natCast, List.length_append]
+  rw [Nat.min_eq_left (by omega), Nat.min_eq_left (by omega), List.take_append, List.drop_append]
+  simp
+
+private theorem take_takeWhile {α} (p : α → Bool) : ∀ s : List α, s.take (s.takeWhile p).length = s.takeWhile p
+  | [] => rfl
+  | a :: l => by rw [List.takeWhile_cons]; split <;> simp [take_takeWhile p l]
+
+/-- **`Lexer._read_name`: model = source.** With `pre` already consumed and `s` unread, the translated method returns the
+    `Name` token the model's `readName` builds (same start, end, text) and leaves `_position` at the token's end; it never
+    raises and its loop never runs out of fuel. -/
+theorem read_name_model_eq_source (pre s : Text) :
+    Tr.Lexer._read_name (pre ++ s) (pre.length : Int)
+      = .ok ((((Lex.readName (pre ++ s).length s).1.start : Int), ((Lex.readName (pre ++ s).length s).1.stop : Int),
+              (Lex.readName (pre ++ s).length s).1.value), ((Lex.readName (pre ++ s).length s).1.stop : Int)) := by
+  have hlen : (s.takeWhile Lex.isNameChar).length + (s.dropWhile Lex.isNameChar).length = s.length := by
+    rw [← List.length_append, List.takeWhile_append_dropWhile]
+  unfold Tr.Lexer._read_name
+  rw [read_name_while _ pre s (by simp [Py.len]; omega)]
+  have hstart : Lex.posAt (pre ++ s).length s = pre.length := by simp [Lex.posAt]
+  have hstop : Lex.posAt (pre ++ s).length (s.dropWhile Lex.isNameChar) = pre.length + (s.takeWhile Lex.isNameChar).length := by
+    simp [Lex.posAt]; omega
+  have hsl := slice_mid pre s (s.takeWhile Lex.isNameChar).length (by omega)
+  simp only [Lex.readName, hstart, hstop, Py.tok3, hsl, take_takeWhile]
+
+/-! ### `Lexer._read_over_digits` -/
+
+private theorem digit_eq (c : Nat) : (([48, 49, 50, 51, 52, 53, 54, 55, 56, 57] : List Nat).contains c) = Lex.isDigit c := by
+  unfold Lex.isDigit Generated.LexTables.digits; rfl
+
+private theorem read_digits_while : ∀ (fuel : Nat) (pre : List Nat) (c : Nat) (t : List Nat), t.length + 1 < fuel →
+    ∃ ch, Tr.Lexer._read_over_digits.while1 (pre ++ c :: t) fuel (pre.length : Int) c
+      = .fall ((((pre.length + ((c :: t).takeWhile Lex.isDigit).length : Nat)) : Int), ch)
+  | 0, _, _, _, h => by omega
+  | fuel + 1, pre, c, t, h => by
+    rw [Tr.Lexer._read_over_digits.while1]
+    simp only [digit_eq, Bool.true_and, if_true, List.takeWhile_cons]
+    by_cases hc : Lex.isDigit c = true
+    · simp only [hc, if_true]
+      cases t with
+      | nil =>
+        have e : (pre.length : Int) + 1 = (((pre ++ [c]).length : Nat) : Int) := by simp
+        rw [e, getItem_end]
+        exact ⟨c, by simp⟩
+      | cons d t' =>
+        have e : (pre.length : Int) + 1 = (((pre ++ [c]).length : Nat) : Int) := by simp
+        have e1 : pre ++ c :: d :: t' = (pre ++ [c]) ++ d :: t' := by simp
+        rw [e, e1, getItem_at]
+        obtain ⟨ch, ih⟩ := read_digits_while fuel (pre ++ [c]) d t' (by simp at h; omega)
+        refine ⟨ch, ?_⟩
+        simp only [ih]
+        congr 2; simp; omega
+    · exact ⟨c, by simp [hc]⟩
+
+/-- the exception class of a model error -/
+def excName : Lex.ErrKind → String
+  | .unexpectedEOF => "UnexpectedEOF"
+  | .unexpectedCharacter => "UnexpectedCharacter"
+  | .invalidCharacter => "InvalidCharacter"
+  | .nonTerminatedString => "NonTerminatedString"
+  | .invalidEscapeSequence => "InvalidEscapeSequence"
+  | .fuel => "OutOfFuel"
+
+/-- **`Lexer._read_over_digits`: model = source.** Same exception class on the same inputs (end of input, a non-digit), and
+    otherwise `_position` ends where the model's unread suffix starts. -/
+theorem read_over_digits_model_eq_source (pre s : Text) :
+    Tr.Lexer._read_over_digits (pre ++ s) (pre.length : Int)
+      = match Lex.readOverDigits (pre ++ s).length s with
+        | .ok rest => .ok ((), (((pre ++ s).length - rest.length : Nat) : Int))
+        | .error e => .error (excName e.kind) := by
+  unfold Tr.Lexer._read_over_digits Lex.readOverDigits
+  cases s with
+  | nil => simp [getItem_end, excName]
+  | cons c t =>
+    simp only [getItem_at, digit_eq]
+    by_cases hc : Lex.isDigit c = true
+    · obtain ⟨ch, hw⟩ := read_digits_while (((Py.len (pre ++ c :: t) - (pre.length : Int)) + 1).toNat) pre c t
+        (by simp [Py.len]; omega)
+      have hlen : (t.takeWhile Lex.isDigit).length + (t.dropWhile Lex.isDigit).length = t.length := by
+        rw [← List.length_append, List.takeWhile_append_dropWhile]
+      simp only [hc, Bool.not_true, Bool.false_eq_true, if_false, if_true, hw, List.takeWhile_cons]
+      congr 2; simp; omega
+    · simp [hc, excName]
 
 end PyGql.Props.C01
